@@ -176,26 +176,30 @@ def run(chk, facts):
 
     # ---------------- R-C14-3 ----------------
     try:
+        from .chain import parse_tuple_fold
         pt = syn.one_fn("parse_tuple", mod="parse::collection")
-        ok = False
-        for n in walk(pt["body"]):
-            if n.get("k") == "if" and src(strip(n["c"])).replace(" ", "") in ("(elements.len()==1)", "elements.len()==1"):
-                if "elements[0]" in src(n["then"]):
-                    ok = True
-        chk.ob("R-C14-3", "parse_tuple:fold", ok, "`(e)` is parsed as `e`" if ok else "parse_tuple no longer returns the sole element of a 1-tuple", facts.loc_of(pt))
+        ok, why = parse_tuple_fold(syn)
+        chk.ob("R-C14-3", "parse_tuple:fold", ok, why if ok else f"{why}: redundant parentheses change the tree", facts.loc_of(pt))
     except AnchorError as e:
         chk.anchor_fail("R-C14-3", e)
 
     # ---------------- R-C14-5 ----------------
     try:
+        from .lexer import state_step_folds
+        from .smalleval import NoEval as _NoEval
         sp = syn.one_fn("space", impl_of="State")
-        s = src(sp["body"]).replace(" ", "")
-        ok = "self.line_indent+=i32::from(!self.token_this_line)" in s
-        chk.ob("R-C14-5", "space:only-before-first-token", ok, "a space counts as indentation only before the first token of its line" if ok else
-               "State::space no longer ignores spaces after the first token of a line: trailing spaces change the indentation", facts.loc_of(sp))
         nl = syn.one_fn("newline", impl_of="State")
+        try:
+            after, unc = state_step_folds(syn)
+            why = "; ".join(unc[:2]) if unc else ""
+            ok = not unc and all(after[("space", flag, li)]["line_indent"] == (li if flag else li + 1) for flag in (False, True) for li in (1, 5))
+        except _NoEval as ex:
+            after, ok, why = None, False, f"State::space / State::newline could not be folded ({ex})"
+        chk.ob("R-C14-5", "space:only-before-first-token", ok, "a space counts as indentation only before the first token of its line (State::space folded over both cases)" if ok else
+               f"State::space no longer ignores spaces after the first token of a line: trailing spaces change the indentation {why}", facts.loc_of(sp))
         s = src(nl["body"]).replace(" ", "")
-        ok = "self.line_indent=1" in s and "self.token_this_line=false" in s and "Token::Indent" not in s and "Token::Dedent" not in s and "if" not in re.sub(r"[A-Za-z_]+if|if[A-Za-z_]", "", s)
+        ok = after is not None and not unc and "Token::Indent" not in s and "Token::Dedent" not in s and all(
+            after[("newline", flag, li)]["line_indent"] == 1 and after[("newline", flag, li)]["token_this_line"] is False for flag in (False, True) for li in (1, 5))
         chk.ob("R-C14-5", "newline:resets", ok, "a newline resets the indentation count unconditionally and emits no Indent/Dedent" if ok else
                "State::newline no longer resets the line state unconditionally: a whitespace-only line can leak into the next line's indentation", facts.loc_of(nl))
         tk = syn.one_fn("token", impl_of="State")
